@@ -8,6 +8,7 @@ CONSTANTS
   PublishOnError = TRUE
   Crashes = {"kill", "power"}
   Faults = FALSE
+  MaxFaults = 1
   Damages = FALSE
 INVARIANT TypeOK
 INVARIANT ReaderPinned
